@@ -301,7 +301,21 @@ def run(repo, rep, tier):
             # empty aggregator as well
             reach_stmts = [g.nodes[i].ast for i in seen if g.nodes[i].kind == "stmt"]
 
-            def zero_like(e):
+            def before(rnode):
+                """statements of this factor class from which the return can be reached (what lies behind an early return does not count)"""
+                back = set()
+                work2 = [rnode.id]
+                while work2:
+                    x = work2.pop()
+                    if x in back:
+                        continue
+                    back.add(x)
+                    for lab, p0 in g.nodes[x].pred:
+                        if p0 in seen:
+                            work2.append(p0)
+                return [g.nodes[i].ast for i in back if g.nodes[i].kind == "stmt"]
+
+            def zero_like(e, reach_stmts=reach_stmts):
                 if is_self_zero(e, sn):
                     return True
                 e2 = e
@@ -330,7 +344,7 @@ def run(repo, rep, tier):
                                 return False
                 return True
             zero_only = bool(returns) and all(zero_like(r.ast.value) for r in returns)
-            any_zero = any(zero_like(r.ast.value) for r in returns)
+            any_zero = any(zero_like(r.ast.value, before(r)) for r in returns)
             if cls == "pos":
                 ok = bool(returns) and not any_zero
                 why = "a positive factor can return the empty aggregator"
@@ -344,6 +358,30 @@ def run(repo, rep, tier):
                             stmt=f"factor class {cls}")
         # ---------------- R8.2
         scaling_rule(repo, rep, r2, c, m, f, sn, fname)
+        # keys of key-addressed children are carried over unchanged: `out.bins[k] = v * factor` for the operand's own k
+        for n in walk_local_stmt(f.node):
+            pairs = []
+            if isinstance(n, ast.For) and isinstance(n.target, ast.Tuple) and len(n.target.elts) == 2 and isinstance(n.target.elts[0], ast.Name) \
+                    and isinstance(n.iter, ast.Call) and isinstance(n.iter.func, ast.Attribute) and n.iter.func.attr == "items" \
+                    and isinstance(n.iter.func.value, ast.Attribute) and isinstance(n.iter.func.value.value, ast.Name) and n.iter.func.value.value.id == sn:
+                kname = n.target.elts[0].id
+                for st in ast.walk(n):
+                    if isinstance(st, ast.Assign) and len(st.targets) == 1 and isinstance(st.targets[0], ast.Subscript) and any(
+                            isinstance(x, ast.Name) and x.id == kname for x in ast.walk(st.targets[0].slice)):
+                        pairs.append((st.targets[0].slice, kname, st))
+            if isinstance(n, ast.DictComp) and len(n.generators) == 1:
+                g0 = n.generators[0]
+                if isinstance(g0.target, ast.Tuple) and len(g0.target.elts) == 2 and isinstance(g0.target.elts[0], ast.Name) and isinstance(g0.iter, ast.Call) \
+                        and isinstance(g0.iter.func, ast.Attribute) and g0.iter.func.attr == "items" and isinstance(g0.iter.func.value, ast.Attribute) \
+                        and isinstance(g0.iter.func.value.value, ast.Name) and g0.iter.func.value.value.id == sn:
+                    pairs.append((n.key, g0.target.elts[0].id, n))
+            for key_expr, kname, where in pairs:
+                okk = isinstance(key_expr, ast.Name) and key_expr.id == kname
+                r2.ob(okk, f"{c.name}.__mul__: child key `{ast.unparse(key_expr)[:30]}` is the operand's key")
+                if not okk:
+                    rep.finding("R8.2", f, where, f"the scaled children are stored under `{ast.unparse(key_expr)[:40]}`, not under the operand's own key `{kname}`: for keys that "
+                                f"the expression changes (bool/None categories under str(), numbers under int()) h * f has other bins than h - h * 1 != h, and "
+                                f"(h * f) + h has both spellings of the key", stmt=f"child key rewritten by __mul__: {ast.unparse(key_expr)[:30]}")
         # ---------------- R8.3
         rm = repo.own_method(c, "__rmul__")
         body = [x for x in rm.node.body if not (isinstance(x, ast.Expr) and isinstance(x.value, ast.Constant))]
